@@ -235,6 +235,10 @@ func StrictFAT2(content []byte, knownTicker func(string) bool) Verdict {
 		}
 		st.Type = ty.str
 		xf, cv := t.get("transfers"), t.get("conversion")
+		// canonical form carries exactly one of the two MEMBERS; an empty or null member is still a member
+		if (xf != nil) == (cv != nil) {
+			return reject("transaction needs exactly one of transfers or conversion", true)
+		}
 		hasX := xf != nil && !(xf.kind == 'a' && len(xf.items) == 0) && xf.kind != 'z'
 		hasC := cv != nil && !(cv.kind == 's' && cv.str == "") && cv.kind != 'z'
 		if hasX == hasC {
